@@ -420,7 +420,8 @@ class Node:
         dashes in their keys.
         """
         for key_node, _ in self.yaml_node.value:
-            key_node.value = key_node.value.replace('_', '-')
+            if isinstance(key_node, yaml.ScalarNode):
+                key_node.value = key_node.value.replace('_', '-')
 
     def dashes_to_unders_in_keys(self) -> None:
         """Replaces dashes with underscores in key names.
@@ -431,7 +432,8 @@ class Node:
         formats use dashes in their keys.
         """
         for key_node, _ in self.yaml_node.value:
-            key_node.value = key_node.value.replace('-', '_')
+            if isinstance(key_node, yaml.ScalarNode):
+                key_node.value = key_node.value.replace('-', '_')
 
     def seq_attribute_to_map(self,
                              attribute: str,
